@@ -181,9 +181,6 @@ func VerifC10_wrappers() {
 
 	// a second format on the same table, then the first one again: still the reference bytes
 	second := (format + 1) % 5
-	if vfTier() == 1 {
-		second = (format + 1 + vfChoice("second", 3)) % 5
-	}
 	out2, err2 := vfRenderAs(w, second)
 	ref2, rerr2 := vfRenderAs(ref, second)
 	vfAssert((err2 == nil) == (rerr2 == nil), "second-format-same-error-status")
